@@ -201,9 +201,28 @@ func (c *FnCtx) callContract(st *State, in ssa.Instruction, cc *ssa.CallCommon, 
 		c.oblige(st, "pre", fmt.Sprintf("%s#%d.%s", name, c.callOrd[name], nm), in.Pos(), env.evalBool(cl.E),
 			fmt.Sprintf("precondition of %s: %s", name, cl.Text), nil)
 	}
-	// recursion variant
-	if name == c.name {
-		c.note("recursive call to %s: termination relies on the callee contract's decreases clause", name)
+	// recursion variant: calls inside a recursion cycle must decrease the measure
+	if callee := c.eng.funcs[name]; callee != nil && c.eng.reaches(callee, c.fn) {
+		var mine, theirs *Clause
+		for i := range c.fc.Clauses {
+			if c.fc.Clauses[i].Kind == "recdec" {
+				mine = &c.fc.Clauses[i]
+			}
+		}
+		for i := range fc.Clauses {
+			if fc.Clauses[i].Kind == "recdec" {
+				theirs = &fc.Clauses[i]
+			}
+		}
+		if mine == nil || theirs == nil {
+			c.note("recursive call to %s: termination not proved (no decreases clause)", name)
+		} else {
+			entryEnv := &Env{c: c, st: c.entry, old: c.entry, vars: map[string]Val{}, fn: c.fn}
+			m0 := entryEnv.evalInt(mine.E)
+			m1 := env.evalInt(theirs.E)
+			c.oblige(st, "dec.rec", fmt.Sprintf("%s#%d", name, c.callOrd[name]), in.Pos(), and(le("0", m1), lt(m1, m0)),
+				fmt.Sprintf("recursion measure decreases: %s < %s", theirs.Text, mine.Text), nil)
+		}
 	}
 	if !fc.Pure {
 		for _, m := range fc.Modifies {
@@ -295,12 +314,17 @@ func (c *FnCtx) execBuiltin(st *State, in ssa.Instruction, b *ssa.Builtin, cc *s
 }
 
 // leafFamilies lists the element-heap leaf maps for an element type.
-func (c *FnCtx) elemLeaves(elem types.Type) []leaf {
+func (c *FnCtx) elemLeaves(elem types.Type) []leaf { return c.elemLeavesIn(elem, "") }
+
+func (c *FnCtx) elemLeavesIn(elem types.Type, reg string) []leaf {
 	var out []leaf
 	var walk func(t types.Type, prefix string)
 	walk = func(t types.Type, prefix string) {
 		if s, ok := t.Underlying().(*types.Struct); ok {
 			for i := 0; i < s.NumFields(); i++ {
+				if _, isArr := s.Field(i).Type().Underlying().(*types.Array); isArr {
+					continue
+				}
 				walk(s.Field(i).Type(), prefix+"."+s.Field(i).Name())
 			}
 			return
@@ -309,7 +333,7 @@ func (c *FnCtx) elemLeaves(elem types.Type) []leaf {
 			out = append(out, leaf{prefix + l.suffix, l.sort})
 		}
 	}
-	walk(elem, "E$"+typeName(elem))
+	walk(elem, elemFam(elem, reg))
 	return out
 }
 
@@ -320,7 +344,15 @@ func (c *FnCtx) execAppend(st *State, in ssa.Instruction, s VSlice, more Val) Va
 	switch m := more.(type) {
 	case VSlice:
 		mlen = m.Len
+		srcLeaves := c.elemLeavesIn(elem, m.Reg)
+		dstLeaves := c.elemLeaves(elem)
 		msrc = func(l leaf, k string) string {
+			for i, dl := range dstLeaves {
+				if dl.suffix == l.suffix {
+					l = srcLeaves[i]
+					break
+				}
+			}
 			return sel(sel(c.heapGet(st, l.suffix, mapSort(2, l.sort)), m.Base), plus(m.Off, k))
 		}
 	case VStr:
@@ -328,6 +360,9 @@ func (c *FnCtx) execAppend(st *State, in ssa.Instruction, s VSlice, more Val) Va
 		msrc = func(l leaf, k string) string { return strAt(m, k) }
 	default:
 		panic(unsupported("append of %T", more))
+	}
+	if s.Reg != "" {
+		panic(unsupported("append to a slice of the read-only region %s", s.Reg))
 	}
 	newLen := c.define("alen", sInt, plus(s.Len, mlen))
 	fits := c.define("fits", sBool, le(newLen, s.Cap))
@@ -351,7 +386,7 @@ func (c *FnCtx) execAppend(st *State, in ssa.Instruction, s VSlice, more Val) Va
 		arr := c.lambda("app", l.sort, k, ite(fits, inPlace, grown))
 		c.heapSet(st, l.suffix, ms, sto(m, base, arr))
 	}
-	return VSlice{base, off, newLen, cp, elem}
+	return VSlice{base, off, newLen, cp, elem, ""}
 }
 
 func (c *FnCtx) execCopy(st *State, dst VSlice, src Val) Val {
@@ -360,8 +395,19 @@ func (c *FnCtx) execCopy(st *State, dst VSlice, src Val) Val {
 	switch m := src.(type) {
 	case VSlice:
 		slen = m.Len
+		srcLeaves := c.elemLeavesIn(dst.Elem, m.Reg)
+		dstLeaves := c.elemLeaves(dst.Elem)
 		ssrc = func(l leaf, k string) string {
+			for i, dl := range dstLeaves {
+				if dl.suffix == l.suffix {
+					l = srcLeaves[i]
+					break
+				}
+			}
 			return sel(sel(c.heapGet(st, l.suffix, mapSort(2, l.sort)), m.Base), plus(m.Off, k))
+		}
+		if dst.Reg != "" {
+			panic(unsupported("copy into the read-only region %s", dst.Reg))
 		}
 	case VStr:
 		slen = m.Len
